@@ -334,8 +334,717 @@ MODELS = {
 }
 
 
+# ================================================================ the `...Model` wrappers across parameter updates
+# One model OBJECT is built through one of its documented JSON forms, evaluated, some of its parameters are replaced by fresh
+# symbols through the public `Parameter.tensor = ...` setter, and it is evaluated again (a history).  Every evaluation -
+# `model()` and `model.distribution().log_prob(...)` - must equal the Kingman oracle at the symbols that are CURRENT at that
+# point of the history.  All generations of all symbols live in one trace; a path region fixes the event order of every
+# generation of heights / grid points, the region loop + closure query of `Explorer` covers all of them.
+WRAPPERS = {
+    'constant': dict(type='ConstantCoalescentModel', dist='ConstantCoalescent', ntheta=lambda n, G: 1),
+    'exponential': dict(type='ExponentialCoalescentModel', dist='ExponentialCoalescent', ntheta=lambda n, G: 1, growth=1),
+    'skyride': dict(type='PiecewiseConstantCoalescentModel', dist='PiecewiseConstantCoalescent', ntheta=lambda n, G: n - 1),
+    'skygrid': dict(type='PiecewiseConstantCoalescentGridModel', dist='PiecewiseConstantCoalescentGrid',
+                    ntheta=lambda n, G: G + 1, grid=True),
+    'plinear': dict(type='PiecewiseLinearCoalescentGridModel', dist='PiecewiseLinearCoalescentGrid',
+                    ntheta=lambda n, G: G + 1, grid=True, strict_grid=True),
+    'pexp': dict(type='PiecewiseExponentialCoalescentGridModel', dist='PiecewiseExponentialCoalescentGrid',
+                 ntheta=lambda n, G: G + 1, grid=True, strict_grid=True, growth='per-piece'),
+    'integrated': dict(type='ConstantCoalescentIntegratedModel', dist='ConstantCoalescentIntegrated', ntheta=lambda n, G: 0),
+}
+TOPOLOGY = {2: (0, 1), 3: ((0, 1), 2), 4: (((0, 1), 2), 3)}
+ALPHA, BETA = 2.0, 1.5
+LTH_BOUND = 20.0
+UPDATE_LABEL = {'theta': 'theta', 'growth': 'growth', 'grid': 'grid', 'heights': 'internal heights', 'ratios': 'ratios',
+                'root': 'root height', 'samp': 'sampling times (heights argument of distribution().log_prob)'}
+
+
+def nm(base, gen=0, row=None):
+    """name of generation `gen` (0 = the symbols the model is first evaluated at) of a symbol; `row`: sample index"""
+    s_ = base if not gen else f'{base}~{gen}'
+    return s_ if row is None else f'{s_}#{row}'
+
+
+def index_tree(topology, n):
+    """internal nodes numbered n.. in post-order (torchtree's numbering): root index, {internal node: [children]}"""
+    children = {}
+    counter = itertools.count(n)
+
+    def rec(x):
+        if not isinstance(x, tuple):
+            return x
+        cs = [rec(c) for c in x]
+        i = next(counter)
+        children[i] = cs
+        return i
+
+    return rec(topology), children
+
+
+def newick(x):
+    return '(' + ','.join(newick(c) for c in x) + ')' if isinstance(x, tuple) else f't{x}'
+
+
+def ratio_heights(topology, n, S, ratios, root):
+    """documented ratio parameterisation, written independently of the transform class: the root sits at `root`, an internal
+    node c with parent p at bound_c + ratio_c (h_p - bound_c), bound_c = the oldest sampling time below c"""
+    rootidx, children = index_tree(topology, n)
+    bound = {i: S[i] for i in range(n)}
+    for p in sorted(children):
+        a, b = (bound[c] for c in children[p])
+        bound[p] = b if a <= b else a  # symbolic comparison -> path condition
+    h = {rootidx: root}
+    for p in sorted(children, reverse=True):
+        for c in children[p]:
+            if c in children:
+                h[c] = bound[c] + ratios[c - n] * (h[p] - bound[c])
+    return [h[n + j] for j in range(n - 1)]
+
+
+class WrapCase:
+    """task dict -> symbols, domain, and the generation bookkeeping of a history.
+    keys: model, n, G, theta ('param' | 'ref' | 'texp'), tree ('inline' | 'ref' | 'ratio' | 'times' | 'intervals'),
+    grid ('param' | 'ref' | 'list' | 'cutoff'), perm (order of the sampling times; tree forms) or events (data forms:
+    1 = sampling, 0 = coalescence, in time order), hist (tuple of update sets), batch (None | 'theta' | 'heights' | 'both')"""
+
+    def __init__(self, task):
+        self.task = task
+        self.model = task['model']
+        self.spec = WRAPPERS[self.model]
+        self.n, self.G = task['n'], task.get('G', 0)
+        self.theta_form, self.tree_form = task.get('theta', 'param'), task.get('tree', 'inline')
+        self.grid_form = task.get('grid', 'param') if self.spec.get('grid') else None
+        self.hist = tuple(tuple(u) for u in task.get('hist', ()))
+        self.batch = task.get('batch')
+        self.topology = TOPOLOGY[self.n]
+        self.perm = tuple(task.get('perm') or range(self.n))
+        self.events = tuple(task.get('events') or ())
+        self.ntheta = self.spec['ntheta'](self.n, self.G)
+        self.ngrowth = {None: 0, 1: 1, 'per-piece': self.G + 1}[self.spec.get('growth')]
+        self.rows_theta = [0, 1] if self.batch in ('theta', 'both') else [None]
+        self.rows_heights = [0, 1] if self.batch in ('heights', 'both') else [None]
+        self.rows = [0, 1] if self.batch else [None]
+        self.data_form = self.tree_form in ('times', 'intervals')
+        assert not (self.data_form and self.batch in ('heights', 'both'))
+        # stratum 'generic': no two events at the same time, no grid point on an event, consecutive population sizes different
+        # (the lower-dimensional tie / flat-segment regions are left to the tasks that run on the closed domain)
+        self.generic = task.get('stratum') == 'generic'
+        # ratio trees, three taxa ((t0,t1),t2): whether the cherry is younger ('below': serially sampled, t2 is older than the
+        # first coalescence) or older ('above') than t2 is a NON-LINEAR boundary in (ratio, root height); it is a domain split
+        # (one task per side) rather than a region boundary found by the solver, whose witnesses next to such a boundary
+        # collapse in floating point
+        self.side = task.get('side')
+        assert self.side is None or (self.tree_form == 'ratio' and self.n == 3)
+        assert not (self.generic and self.tree_form in ('ratio', 'intervals'))
+        if self.model == 'integrated':
+            assert self.tree_form in ('inline', 'ref', 'ratio')
+        # number of generations of every kind of symbol
+        self.ngen = {k: 1 + sum(k in u for u in self.hist) for k in UPDATE_LABEL}
+        allowed = self.updatable()
+        for u in self.hist:
+            assert u and set(u) <= allowed, (u, allowed)
+
+    def updatable(self):
+        out = set()
+        if self.ntheta:
+            out.add('theta')
+        if self.ngrowth:
+            out.add('growth')
+        if self.grid_form:
+            out.add('grid')
+        if self.tree_form in ('inline', 'ref'):
+            out |= {'heights', 'samp'}
+        elif self.tree_form == 'ratio':
+            # no 'samp': internal heights are expressions of the tree's own sampling times there
+            out |= {'ratios', 'root'}
+        elif self.tree_form == 'times':
+            out.add('samp')
+        return out
+
+    # ---- names
+    def theta_names(self, gen, row):
+        base = 'lth' if self.theta_form == 'texp' else 'theta'
+        return [nm(f'{base}{k}', gen, row) for k in range(self.ntheta)]
+
+    def growth_names(self, gen, row):
+        if self.spec.get('growth') == 1:
+            return [nm('growth', gen, row)]
+        return [nm(f'growth{k}', gen, row) for k in range(self.ngrowth)]
+
+    def grid_names(self, gen):
+        return [nm(f'g{k}', gen) for k in range(self.G)]
+
+    def samp_names(self, gen):
+        return [nm(f's{i}', gen) for i in range(self.n)]
+
+    def height_names(self, gen, row):
+        return [nm(f'c{j}', gen, row) for j in range(self.n - 1)]
+
+    def ratio_names(self, gen, row):
+        return [nm(f'r{j}', gen, row) for j in range(self.n - 2)]
+
+    def interval_names(self):
+        return [f'iv{k}' for k in range(2 * self.n - 2)]
+
+    def grid_constants(self):
+        # 'cutoff' form: torch.linspace(0, cutoff, ntheta)[1:]
+        c = self.task.get('cutoff', 1.5 * self.G)
+        return [c * (k + 1) / self.G for k in range(self.G)]
+
+    # ---- initial witness
+    def symbols(self):
+        W = {}
+        n = self.n
+        if self.tree_form == 'times':
+            pos_s = [p for p, e in enumerate(self.events) if e == 1]
+            pos_c = [p for p, e in enumerate(self.events) if e == 0]
+            for g in range(self.ngen['samp']):
+                for i, p in enumerate(pos_s):
+                    W[nm(f's{i}', g)] = 0.5 * p + 0.1 * g
+            for j, p in enumerate(pos_c):
+                W[nm(f'c{j}')] = 0.5 * p + 0.05
+            top = 0.5 * len(self.events)
+        elif self.tree_form == 'intervals':
+            for k, name in enumerate(self.interval_names()):
+                W[name] = 0.5 + 0.1 * k
+            top = 5.0
+        else:
+            for g in range(self.ngen['samp']):
+                for rank, i in enumerate(self.perm):
+                    W[nm(f's{i}', g)] = 0.5 * rank + 0.05 * g
+            top = 0.5 * (n - 1) + 0.2
+            if self.tree_form == 'ratio':
+                for g in range(self.ngen['ratios']):
+                    for r in self.rows_heights:
+                        for j, name in enumerate(self.ratio_names(g, r)):
+                            W[name] = (0.05 + 0.01 * g + 0.01 * (r or 0)) if self.side == 'below' else \
+                                (0.4 + 0.1 * j + 0.05 * g + 0.07 * (r or 0))
+                for g in range(self.ngen['root']):
+                    for r in self.rows_heights:
+                        W[nm('root', g, r)] = top + 2.0 + 0.5 * g + 0.3 * (r or 0)
+            else:
+                for g in range(self.ngen['heights']):
+                    for r in self.rows_heights:
+                        for j, name in enumerate(self.height_names(g, r)):
+                            W[name] = top + 1.0 + j + 0.25 * g + 0.1 * (r or 0)
+        for g in range(self.ngen['theta']):
+            for r in self.rows_theta:
+                for k, name in enumerate(self.theta_names(g, r)):
+                    W[name] = (0.3 + 0.2 * k + 0.1 * g + 0.15 * (r or 0)) if self.theta_form == 'texp' else \
+                        (1.5 + k + 0.25 * g + 0.5 * (r or 0))
+        for g in range(self.ngen['growth']):
+            for r in self.rows_theta:
+                for k, name in enumerate(self.growth_names(g, r)):
+                    W[name] = (0.5 if self.ngrowth == 1 else 0.3 + 0.2 * k) + 0.1 * g + 0.2 * (r or 0)
+        for g in self.grid_gens():
+            for k, name in enumerate(self.grid_names(g)):
+                W[name] = 0.7 + 1.1 * k + 0.15 * g
+        return W
+
+    def grid_gens(self):
+        """generations of the grid that are symbols ('cutoff' form: generation 0 is the constant linspace grid)"""
+        if not self.grid_form:
+            return []
+        return list(range(1 if self.grid_form == 'cutoff' else 0, self.ngen['grid']))
+
+    # ---- the generations that are current at each evaluation: [(gens, explicit sampling generation or None)]
+    def snapshots(self):
+        gens = {k: 0 for k in UPDATE_LABEL}
+        out = [(dict(gens), None)]
+        for u in self.hist:
+            for k in u:
+                gens[k] += 1
+            out.append((dict(gens), gens['samp'] if 'samp' in u else None))
+        return out
+
+    # ---- domain
+    def domain(self, d, V):
+        cs = []
+        n = self.n
+        for name in V:
+            if name.startswith('theta') or (name.startswith('g') and not name.startswith('growth')):
+                cs.append(d.lt(0, V[name]))
+            elif name.startswith('growth'):
+                cs.append(d.not_(d.eq(V[name], 0)))
+            elif name.startswith('s') or name.startswith('iv'):
+                cs.append(d.le(0, V[name]))
+            elif name.startswith('r') and not name.startswith('root'):
+                cs += [d.le(0, V[name]), d.le(V[name], 1)]
+            elif name.startswith('lth'):
+                # theta = exp(lth) must stay a positive double at every witness (exp underflows to 0 below about -745)
+                cs += [d.le(d.const(-LTH_BOUND), V[name]), d.le(V[name], d.const(LTH_BOUND))]
+        for g in self.grid_gens():
+            names = self.grid_names(g)
+            for a, b in zip(names, names[1:]):
+                cs.append((d.lt if self.spec.get('strict_grid') else d.le)(V[a], V[b]))
+        if self.tree_form == 'times':
+            for g in range(self.ngen['samp']):
+                it_s, it_c = iter(self.samp_names(g)), iter(self.height_names(0, None))
+                seq = [V[next(it_s)] if e == 1 else V[next(it_c)] for e in self.events]
+                cs += [d.le(a, b) for a, b in zip(seq, seq[1:])]
+        elif self.tree_form != 'intervals':
+            _, children = index_tree(self.topology, n)
+            for g in range(self.ngen['samp']):
+                cs += [d.le(V[nm(f's{a}', g)], V[nm(f's{b}', g)]) for a, b in zip(self.perm, self.perm[1:])]
+            if self.tree_form == 'ratio':
+                for g in range(self.ngen['root']):
+                    for r in self.rows_heights:
+                        for sg in range(self.ngen['samp']):
+                            cs += [d.le(V[s_], V[nm('root', g, r)]) for s_ in self.samp_names(sg)]
+                if self.side:
+                    s0, s1, s2 = (V[x] for x in self.samp_names(0))
+                    b = d.ite(d.le(s0, s1), s1, s0)
+                    combos = {(gens['ratios'], gens['root']) for gens, _ in self.snapshots()}
+                    for rg, og in sorted(combos):
+                        for r in self.rows_heights:
+                            c0 = d.add(b, d.mul(V[nm('r0', rg, r)], d.sub(V[nm('root', og, r)], b)))
+                            cs.append(d.le(c0, s2) if self.side == 'below' else d.le(s2, c0))
+            else:
+                # every (sampling generation, height generation) pair that meets in an evaluation: parents above children
+                pairs = set()
+                for gens, explicit in self.snapshots():
+                    pairs.add((0, gens['heights']))
+                    if explicit is not None:
+                        pairs.add((explicit, gens['heights']))
+                for sg, hg in sorted(pairs):
+                    for r in self.rows_heights:
+                        h = {i: V[nm(f's{i}', sg)] for i in range(n)}
+                        h.update({n + j: V[x] for j, x in enumerate(self.height_names(hg, r))})
+                        for p, kids in children.items():
+                            cs += [d.le(h[c], h[p]) for c in kids]
+        if self.generic:
+            cs += self.generic_constraints(d, V)
+        return cs
+
+    def generic_constraints(self, d, V):
+        cs = []
+        base = 'lth' if self.theta_form == 'texp' else 'theta'
+        for g in range(self.ngen['theta']):
+            for r in self.rows_theta:
+                names = self.theta_names(g, r)
+                cs += [d.not_(d.eq(V[a], V[b])) for a, b in zip(names, names[1:])]
+        seen = set()
+        for gens, explicit in self.snapshots():
+            for sg in {0, explicit} - {None}:
+                for r in self.rows_heights:
+                    ev = self.samp_names(sg) + self.height_names(0 if self.data_form else gens['heights'], r)
+                    grid = self.grid_names(gens['grid']) if gens['grid'] in self.grid_gens() else []
+                    for a, b in itertools.combinations(ev, 2):
+                        if (a, b) not in seen:
+                            seen.add((a, b))
+                            cs.append(d.not_(d.eq(V[a], V[b])))
+                    for a in grid:
+                        for b in ev:
+                            if (a, b) not in seen:
+                                seen.add((a, b))
+                                cs.append(d.not_(d.eq(V[a], V[b])))
+        return cs
+
+    # ---- the oracle's view of the current symbols: standard names -> scalars
+    def par(self, be, gens, row, samp_gen=0):
+        n = self.n
+        rt = row if self.batch in ('theta', 'both') else None
+        rh = row if self.batch in ('heights', 'both') else None
+        P = {}
+        if self.tree_form == 'intervals':
+            acc, times = 0.0, [0.0]
+            for name in self.interval_names():
+                acc = acc + be.scalar(name)
+                times.append(acc)
+            it = iter(times)
+            seq = [(e, next(it)) for e in self.events]
+            S = [x for e, x in seq if e == 1]
+            C = [x for e, x in seq if e == 0]
+        else:
+            S = [be.scalar(x) for x in self.samp_names(samp_gen)]
+            if self.tree_form == 'ratio':
+                # the bounds of the ratio transform are the tree's own sampling times (generation 0)
+                S0 = [be.scalar(x) for x in self.samp_names(0)]
+                C = ratio_heights(self.topology, n, S0, [be.scalar(x) for x in self.ratio_names(gens['ratios'], rh)],
+                                  be.scalar(nm('root', gens['root'], rh)))
+            else:
+                C = [be.scalar(x) for x in self.height_names(gens['heights'] if not self.data_form else 0, rh)]
+        for i, x in enumerate(S):
+            P[f's{i}'] = x
+        for j, x in enumerate(C):
+            P[f'c{j}'] = x
+        for k, name in enumerate(self.theta_names(gens['theta'], rt)):
+            P[f'theta{k}'] = be.math.exp(be.scalar(name)) if self.theta_form == 'texp' else be.scalar(name)
+        for k, name in enumerate(self.growth_names(gens['growth'], rt)):
+            P['growth' if self.ngrowth == 1 else f'growth{k}'] = be.scalar(name)
+        if self.grid_form == 'cutoff' and gens['grid'] == 0:
+            for k, v in enumerate(self.grid_constants()):
+                P[f'g{k}'] = v
+        elif self.grid_form:
+            for k, name in enumerate(self.grid_names(gens['grid'])):
+                P[f'g{k}'] = be.scalar(name)
+        if self.model == 'integrated':
+            P['alpha'], P['beta'] = ALPHA, BETA
+        return P
+
+    def describe(self):
+        t = self.task
+        hist = ' ; '.join('+'.join(u) for u in self.hist) or 'none'
+        where = f'events={"".join(map(str, self.events))}' if self.data_form else f'sampling-order={self.perm}'
+        return (f'{self.spec["type"]} n={self.n} G={self.G} theta:{self.theta_form} tree:{self.tree_form}'
+                + (f' grid:{self.grid_form}' if self.grid_form else '') + f' {where}'
+                + (f' batched:{self.batch}' if self.batch else '') + (' [generic stratum]' if self.generic else '')
+                + (f' [cherry {self.side} t2]' if self.side else '')
+                + f' updates=[{hist}]')
+
+
+class SymBackend:
+    """symbols of the current trace"""
+
+    def __init__(self, V):
+        from symtorch import SymMath
+
+        self.V = V
+        self.math = SymMath()
+        self.flat = lambda na, nb: nb == na  # symbolic comparison -> path condition
+
+    def scalar(self, name):
+        return mkfloat(self.V[name])
+
+    def tensor(self, names):
+        from symtorch import from_ids
+
+        f = lambda x: [f(y) for y in x] if isinstance(x, list) else self.V[x]  # noqa: E731
+        return from_ids(torch.tensor(f(names), dtype=torch.int64))
+
+
+class NumBackend:
+    """plain floats / plain torch tensors (replay on the real code)"""
+
+    def __init__(self, vals):
+        import math
+
+        self.vals = vals
+        self.math = math
+        self.flat = None
+
+    def scalar(self, name):
+        return float(self.vals[name])
+
+    def tensor(self, names):
+        f = lambda x: [f(y) for y in x] if isinstance(x, list) else float(self.vals[x])  # noqa: E731
+        return torch.tensor(f(names), dtype=torch.float64)
+
+
+def _register_types():
+    import torchtree.core.parameter  # noqa
+    import torchtree.evolution.coalescent  # noqa
+    import torchtree.evolution.taxa  # noqa
+    import torchtree.evolution.tree_model  # noqa
+
+
+def wrap_build(case, be):
+    """the model object, built through the JSON form of the case by the real from_json methods"""
+    from torchtree.core.utils import process_object
+
+    _register_types()
+    n = case.n
+    dic = {}
+    spec = case.spec
+    js = {'id': 'm', 'type': spec['type']}
+    # ---- population parameters
+    def place(key, obj):
+        if case.theta_form == 'ref':
+            process_object(obj, dic)
+            js[key] = obj['id']
+        else:
+            js[key] = obj
+
+    if case.ntheta:
+        if case.theta_form == 'texp':
+            js['theta'] = {'id': 'theta', 'type': 'TransformedParameter', 'transform': 'torch.distributions.ExpTransform',
+                           'x': {'id': 'logtheta', 'type': 'Parameter', 'tensor': [0.0] * case.ntheta}}
+        else:
+            place('theta', {'id': 'theta', 'type': 'Parameter', 'tensor': [1.0] * case.ntheta})
+    if case.ngrowth:
+        place('growth', {'id': 'growth', 'type': 'Parameter', 'tensor': [0.1] * case.ngrowth})
+    if case.model == 'integrated':
+        js['alpha'], js['beta'] = ALPHA, BETA
+    # ---- grid
+    if case.grid_form in ('param', 'ref'):
+        g = {'id': 'grid', 'type': 'Parameter', 'tensor': [1.0 + k for k in range(case.G)]}
+        if case.grid_form == 'ref':
+            process_object(g, dic)
+            js['grid'] = 'grid'
+        else:
+            js['grid'] = g
+    elif case.grid_form == 'list':
+        js['grid'] = [be.scalar(x) for x in case.grid_names(0)]  # read by torch.tensor(list) inside from_json
+    elif case.grid_form == 'cutoff':
+        js['cutoff'] = case.task.get('cutoff', 1.5 * case.G)
+    # ---- tree / node heights
+    if case.tree_form == 'times':
+        it_s, it_c = iter(case.samp_names(0)), iter(case.height_names(0, None))
+        js['times'] = [be.scalar(next(it_s) if e == 1 else next(it_c)) for e in case.events]
+        js['events'] = list(case.events)
+    elif case.tree_form == 'intervals':
+        js['intervals'] = [be.scalar(x) for x in case.interval_names()]
+        js['events'] = list(case.events)
+    else:
+        taxa = {'id': 'taxa', 'type': 'Taxa', 'taxa': [{'id': f't{i}', 'type': 'Taxon', 'attributes': {'date': 0.0}}
+                                                       for i in range(n)]}
+        if case.tree_form == 'ratio':
+            tree = {'id': 'tree', 'type': 'ReparameterizedTimeTreeModel', 'newick': newick(case.topology) + ';',
+                    'ratios': {'id': 'tree.ratios', 'type': 'Parameter', 'tensor': [0.5] * (n - 2)},
+                    'root_height': {'id': 'tree.root_height', 'type': 'Parameter', 'tensor': [10.0]}, 'taxa': taxa}
+        else:
+            tree = {'id': 'tree', 'type': 'TimeTreeModel', 'newick': newick(case.topology) + ';',
+                    'internal_heights': {'id': 'tree.heights', 'type': 'Parameter', 'tensor': [1.0 + i for i in range(n - 1)]},
+                    'taxa': taxa}
+        if case.tree_form == 'ref':
+            process_object(tree, dic)
+            js['tree_model'] = 'tree'
+        else:
+            js['tree_model'] = tree
+    model = process_object(js, dic)
+    if not case.data_form:
+        tree = dic['tree']
+        tree.sampling_times = be.tensor(case.samp_names(0))  # as C06 / C07: the tip dates of the tree become symbols
+        if case.tree_form == 'ratio':
+            tree.transform.update_bounds()
+    return model, dic
+
+
+def wrap_assign(case, be, model, dic, kind, gen):
+    """replace the tensor of one kind of parameter by generation `gen` of its symbols (public setter: listeners fire)"""
+    def rows(namefn, rws):
+        return [namefn(gen, r) for r in rws] if rws != [None] else namefn(gen, None)
+
+    if kind == 'theta':
+        target = dic['logtheta'] if case.theta_form == 'texp' else dic['theta']
+        target.tensor = be.tensor(rows(case.theta_names, case.rows_theta))
+    elif kind == 'growth':
+        dic['growth'].tensor = be.tensor(rows(case.growth_names, case.rows_theta))
+    elif kind == 'grid':
+        # 'list' / 'cutoff' forms have no id: the grid is the public attribute `grid` of the model
+        (dic['grid'] if case.grid_form in ('param', 'ref') else model.grid).tensor = be.tensor(case.grid_names(gen))
+    elif kind == 'heights':
+        dic['tree.heights'].tensor = be.tensor(rows(case.height_names, case.rows_heights))
+    elif kind == 'ratios':
+        dic['tree.ratios'].tensor = be.tensor(rows(case.ratio_names, case.rows_heights))
+    elif kind == 'root':
+        dic['tree.root_height'].tensor = be.tensor(rows(lambda g, r: [nm('root', g, r)], case.rows_heights))
+    else:
+        raise KeyError(kind)
+
+
+def wrap_drive(case, be):
+    """Run the history.  Returns [(label, signature, value | exception, [oracle parameters per sample])]."""
+    from symtorch import EngineError
+
+    model, dic = wrap_build(case, be)
+    typ = case.spec['type']
+    n = case.n
+    # generation 0 of every parameter (the JSON carried placeholders; data forms / grid lists carried the symbols themselves)
+    init = []
+    if case.ntheta:
+        init.append('theta')
+    if case.ngrowth:
+        init.append('growth')
+    if case.grid_form in ('param', 'ref'):
+        init.append('grid')
+    if case.tree_form in ('inline', 'ref'):
+        init.append('heights')
+    elif case.tree_form == 'ratio':
+        init += ['ratios', 'root']
+    for kind in init:
+        wrap_assign(case, be, model, dic, kind, 0)
+    evals = []
+
+    def observe(label, sig, fn, gens, samp_gen=0):
+        try:
+            v = fn()
+        except EngineError:
+            raise
+        except Exception as e:  # the real code raised on an in-domain input
+            v = e
+        evals.append((label, sig, v, [case.par(be, gens, r, samp_gen) for r in case.rows]))
+
+    snaps = case.snapshots()
+    for step, (gens, explicit) in enumerate(snaps):
+        if step:
+            for kind in case.hist[step - 1]:
+                if kind != 'samp':
+                    wrap_assign(case, be, model, dic, kind, gens[kind])
+        after = 'build' if not step else 'update ' + str(step) + ' (' + ', '.join(case.hist[step - 1]) + ')'
+        last = 'build' if not step else '+'.join(case.hist[step - 1])
+        observe(f'{typ}() after {after} == Kingman oracle at the current symbols', f'{typ}.__call__:after:{last}',
+                lambda: model(), gens)
+        observe(f'{typ}.distribution().log_prob(tree_model.node_heights) after {after} == Kingman oracle at the current symbols',
+                f'{typ}.distribution().log_prob:after:{last}',
+                lambda: model.distribution().log_prob(model.tree_model.node_heights), gens)
+        if explicit is not None:
+            def explicit_call():
+                h = torch.cat((be.tensor(case.samp_names(explicit)), model.tree_model.node_heights[..., n:]), -1)
+                return model.distribution().log_prob(h)
+
+            observe(f'{typ}.distribution().log_prob(new sampling times + current internal heights) after {after} == Kingman '
+                    f'oracle', f'{typ}.distribution().log_prob:explicit-heights:after:{last}', explicit_call, gens, explicit)
+    return evals
+
+
+WRAP_BOUNDS = (
+    'one model object per task, built by the real from_json; evaluated after the build and after every update of a history of '
+    '<= 2 (quick) / 3 (thorough) updates, each update = a non-empty subset of {theta, growth, grid, internal heights | ratios, root '
+    'height} replaced by fresh symbols through Parameter.tensor = ...; observed: model() and '
+    'model.distribution().log_prob(tree_model.node_heights) at every evaluation, plus distribution().log_prob(new sampling times + '
+    'current internal heights) for an update of the sampling times (a TimeTreeModel / data-form model has no notifying way to change '
+    'its sampling times, so they change through the heights argument only); every evaluation == Kingman oracle at the symbols current '
+    'at that point, on every path region of every generation of heights / grid points (coverage certificate per task). '
+    'Three taxa on ((t0,t1),t2) (grid model histories that update grid / heights more than once: two taxa; n = 4 caterpillar in the '
+    'thorough tier), one inner grid point. JSON forms: theta as inline Parameter / by id / TransformedParameter(ExpTransform, '
+    '|log theta| <= 20); tree_model inline / by id / ReparameterizedTimeTreeModel (ratios + root height; the event order cherry-vs-t2 '
+    'is a domain split: one task per side) / none with times + events / none with intervals + events (event order fixed per task, '
+    'times non-decreasing); grid as Parameter / by id / list / cutoff. Sampling times of tree forms are symbols in a fixed order per '
+    'task (quick: (0,1,2) - t2 last, so the interleaved region is enumerated - or (2,1,0); thorough: also (0,2,1) and (2,0,1)). Batched: [2,.] '
+    'population parameters and / or [2,.] internal heights (sampling times shared), per-sample oracle; when only one of the two is '
+    'batched a raised error is accepted and noted. ConstantCoalescentIntegratedModel: alpha = 2, beta = 1.5 (JSON numbers).')
+RAISES_KNOWN = {'pexp': 'PiecewiseExponentialCoalescentGrid.log_prob:raises'}
+
+
+def wrap_body(case, tr):
+    def body(t, V, W):
+        d = t.dag
+        be = SymBackend(V)
+        evals = wrap_drive(case, be)
+        goals, seen = [], set()
+        nrows = len(case.rows)
+        for label, sig, v, pars in evals:
+            if isinstance(v, Exception) and case.batch in ('theta', 'heights'):
+                # only ONE of population parameters / internal heights carries the sample dimension and the call fails with an
+                # error instead of returning a number: accepted (the convention property C10 states for sample shapes), noted
+                note = (f'{case.spec["type"]} with batched {case.batch} only ({"heights" if case.batch == "theta" else "theta"} '
+                        f'without sample dimension) raises {type(v).__name__}: {str(v)[:90]} - accepted, no value to compare')
+                if note not in tr.notes:
+                    tr.notes.append(note)
+                continue
+            if isinstance(v, Exception):
+                g = Goal(f'{label}: evaluates (raised {type(v).__name__}: {str(v)[:80]})', d.FALSE,
+                         signature=RAISES_KNOWN.get(case.model) if isinstance(v, RuntimeError) and case.model in RAISES_KNOWN
+                         else sig + ':raises')
+                if g.signature not in seen:
+                    seen.add(g.signature)
+                    goals.append(g)
+                continue
+            if not hasattr(v, '_ids') or v._ids.numel() != nrows:
+                goals.append(Goal(f'{label}: one value per sample (shape {tuple(v.shape)})', d.FALSE, signature=sig + ':shape'))
+                continue
+            ids = v._ids.reshape(-1).tolist()
+            for r, (iid, P) in enumerate(zip(ids, pars)):
+                orc = numeric_oracle(case.model, case.n, case.G, P, math=be.math, flat=be.flat)
+                goal = d.eq(int(iid), SymFloat._id(orc))
+                if goal in seen:
+                    continue  # the very same expression was already compared with the very same oracle expression
+                seen.add(goal)
+                lab = label + (f' [sample {r}]' if nrows > 1 else '')
+                if case.model == 'plinear':
+                    goals.append(plinear_goal(t, d, goal, case.domain(d, V), lab, sig))
+                else:
+                    goals.append(Goal(lab, goal, hyps=ground_axioms(d, [goal]), signature=sig))
+        if case.model != 'plinear' and len(goals) > 1 and all(g.node != d.FALSE for g in goals):
+            # one solver query for the conjunction of all evaluations of the history on this region; only when it is not
+            # proved are the evaluations handed to the explorer one by one (precise signature, smaller queries)
+            from symtorch.explore import prove
+
+            conj = d.and_(*[g.node for g in goals])
+            st, _, _ = prove(d, case.domain(d, V) + list(t.pcs) + ground_axioms(d, [conj]), conj, timeout=30.0, tr=tr,
+                             label='conjunction of the evaluations of a history')
+            if st == 'proved':
+                return [Goal(f'all {len(goals)} evaluations of the history == Kingman oracle at the symbols current at each of them '
+                             f'(proved as one conjunction)', d.TRUE)]
+        return goals
+
+    return body
+
+
+def plinear_goal(t, d, goal, basic, label, signature):
+    """lemma chaining of body_plinear for one goal: log arguments that agree at the witness are first proved equal on the
+    region, the goal is then also offered with every proved-equal sub-term replaced by its representative"""
+    lemmas = log_congruence_lemmas(d, goal, list(basic) + list(t.pcs), t_budget=10.0)
+    mapping = {d.args[e][1]: d.args[e][0] for e in lemmas if d.ops[e] == 'eq'}
+    alts = []
+    if mapping:
+        g2 = d.substitute([goal], mapping)[0]
+        if g2 != goal:
+            alts.append(g2)
+    return Goal(label, goal, hyps=ground_axioms(d, [goal] + alts) + lemmas, signature=signature, alts=alts)
+
+
+def wrap_replay(task, vals):
+    """The same history on the real code with plain torch tensors against the numeric oracle."""
+    case = WrapCase(task)
+    full = case.symbols()
+    full.update({k: v for k, v in vals.items() if v is not None})
+    be = NumBackend(full)
+    try:
+        evals = wrap_drive(case, be)
+    except Exception as e:
+        return True, f'real code raised {type(e).__name__}: {e} while the model was built'
+    bad = []
+    for label, sig, v, pars in evals:
+        if isinstance(v, Exception):
+            if case.batch not in ('theta', 'heights'):
+                bad.append(f'{label}: real code raised {type(v).__name__}: {v}')
+            continue
+        flat = v.detach().reshape(-1).tolist()
+        if len(flat) != len(pars):
+            bad.append(f'{label}: {len(flat)} values for {len(pars)} samples (shape {tuple(v.shape)})')
+            continue
+        for r, (rv, P) in enumerate(zip(flat, pars)):
+            ov = float(numeric_oracle(case.model, case.n, case.G, P))
+            if not (abs(rv - ov) <= 1e-8 * max(1.0, abs(ov))):
+                bad.append(f'{label}' + (f' [sample {r}]' if len(pars) > 1 else '') + f': real={rv!r} oracle={ov!r}')
+    if bad:
+        return True, ' | '.join(bad[:3])
+    return False, f'{len(evals)} evaluations agree with the oracle'
+
+
+def run_wrap_task(task, tr):
+    import symtorch.ext_c08  # noqa: torch.unique(dim=) on batched sampling times
+    from torchtree.evolution import coalescent as co
+    from torchtree.core.model import CallableModel
+
+    case = WrapCase(task)
+    cls = getattr(co, case.spec['type'])
+    dist = getattr(co, case.spec['dist'])
+    tr.fn(cls.from_json, cls.distribution, getattr(cls, '_call'), CallableModel.__call__, dist.log_prob)
+    if case.data_form:
+        tr.fn(co.process_data_coalesent, co.FakeTreeModel)
+    label = case.describe()
+    ex = Explorer(case.symbols(), case.domain, wrap_body(case, tr), tr, max_regions=task.get('budget', 1500), timeout=30.0,
+                  label=label, deadline=time.time() + task_deadline(), parallel=(case.model == 'plinear'))
+    out = ex.run()
+    for s in out.region_samples[:1]:
+        s['model'] = label
+        tr.sample(s)
+    tr.bounds['model wrappers (one model object across parameter updates)'] = WRAP_BOUNDS
+    if case.model == 'plinear':
+        tr.bounds['PiecewiseLinearCoalescentGridModel (model object across updates): size'] = (
+            'two taxa, one inner grid point (thorough: also the interleaved three-taxon event order in the data form); histories and '
+            'batched calls on the generic stratum only (no two events at one time, no grid point on an event, theta_0 != theta_1; '
+            'quick: updates of grid / theta / heights one at a time, thorough: pairs and the joint update); the closed domain (ties, '
+            'flat segments) without update in the thorough tier; theta as TransformedParameter is outside (undecided within the timeout)')
+    triage(out, lambda vals: wrap_replay(task, vals), tr, label, {'wrapper': task})
+
+
+def task_deadline():
+    """wall-clock limit of one region enumeration (s): the machine is shared, the thorough tier's largest enumerations
+    (skygrid n = 4: ~1500 regions per sampling order) need more than 1500 s when it is busy"""
+    import os
+
+    return 1500 if os.environ.get('VERIF_TIER', 'quick') == 'quick' else 5400
+
+
 def run_task(task, tr):
-    model, n, G, perm, budget = task
+    if isinstance(task, dict):
+        return run_wrap_task(task, tr)
+    model, n, G, perm, budget = task[:5]
+    mode = task[5] if len(task) > 5 else None
     spec = MODELS[model]
     body, fns = spec['mk'](n, G)
     tr.fn(*fns)
@@ -345,6 +1054,9 @@ def run_task(task, tr):
     if spec.get('growths'):
         for k in range(G + 1):
             W[f'growth{k}'] = 0.3 + 0.2 * k
+
+    if mode == 'interleaved':
+        W['c0'] = 0.5 * (W[f's{perm[-2]}'] + W[f's{perm[-1]}'])
 
     def domain(d, V):
         extra = order_constraint(d, V, perm)
@@ -356,13 +1068,26 @@ def run_task(task, tr):
             extra += [d.not_(d.eq(V[f'growth{k}'], 0)) for k in range(G + 1)]
         if spec.get('growth'):
             extra.append(d.not_(d.eq(V['growth'], 0)))
+        if mode == 'interleaved':
+            # serially sampled: the last tip is OLDER than the first coalescence (s.. <= c0 <= s_last <= c1 <= ..), in the generic
+            # stratum (no two events at the same time, no grid point on an event, consecutive population sizes different)
+            seq = [V[f's{i}'] for i in perm[:-1]] + [V['c0'], V[f's{perm[-1]}']] + [V[f'c{j}'] for j in range(1, n - 1)]
+            extra += [d.lt(a, b) for a, b in zip(seq, seq[1:])]
+            extra += [d.not_(d.eq(V[f'g{g}'], x)) for g in range(G if has_grid else 0) for x in seq]
+            extra += [d.not_(d.eq(V[f'theta{k}'], V[f'theta{k + 1}'])) for k in range(ntheta - 1)]
         return coalescent_domain(d, V, n, extra)
 
-    label = f'{model} n={n} G={G} sampling-order={perm}'
+    label = f'{model} n={n} G={G} sampling-order={perm}' + (f' [{mode}]' if mode else '')
     ex = Explorer(W, domain, body, tr, max_regions=budget, timeout=30.0, label=label,
-                  deadline=time.time() + 1500, parallel=(model == 'plinear'))
+                  deadline=time.time() + task_deadline(), parallel=(model == 'plinear'))
     out = ex.run()
-    tr.bounds[f'{model}'] = f'n<={n}, grid points<={G}, all sampling-time orders (one task per order)'
+    if mode == 'interleaved':
+        tr.bounds[f'{model} (serially sampled, interleaved)'] = (
+            f'n={n}, grid points<={G}, one task per sampling order: the last tip is older than the first coalescence '
+            f'(s.. < c0 < s_last < c1), generic stratum of that event order (no two events at one time, no grid point on an event, '
+            f'consecutive population sizes different), grid points anywhere')
+    else:
+        tr.bounds[f'{model}'] = f'n<={n}, grid points<={G}, all sampling-time orders (one task per order)'
     for s in out.region_samples[:1]:
         s['model'] = label
         tr.sample(s)
@@ -370,8 +1095,13 @@ def run_task(task, tr):
 
 
 # ---------------------------------------------------------------- replay
-def numeric_oracle(model, n, G, vals):
-    import math
+def numeric_oracle(model, n, G, vals, math=None, flat=None):
+    """The Kingman event-list oracle on a dict of named scalars.  By default plain floats and the `math` module (replays);
+    the wrapper section passes SymFloats with `math` = SymM (uninterpreted log / exp) and a symbolic flatness test."""
+    if math is None:
+        import math
+    if flat is None:
+        flat = lambda na, nb: abs(nb - na) < 1e-14  # noqa: E731
 
     S = [vals[f's{i}'] for i in range(n)]
     C = [vals[f'c{j}'] for j in range(n - 1)]
@@ -403,11 +1133,19 @@ def numeric_oracle(model, n, G, vals):
             if p >= G:
                 return (b - a) / th[G]
             na, nb = N(p, a), N(p, b)
-            if abs(nb - na) < 1e-14:
+            if flat(na, nb):
                 return (b - a) / na
             return (b - a) * (math.log(nb) - math.log(na)) / (nb - na)
 
         return kingman_oracle(S, C, gr[1:], integ, lambda p, c: math.log(N(p, c)))
+    if model == 'integrated':
+        # constant population size integrated against an inverse-gamma(alpha, beta) prior (documented closed form):
+        # alpha log(beta) - lgamma(alpha) + lgamma(alpha + n - 1) - (alpha + n - 1) log(beta + sum_k C(k,2) * interval_k)
+        import math as _m
+
+        alpha, beta = vals['alpha'], vals['beta']
+        stat = -kingman_oracle(S, C, [], lambda p, a, b: (b - a), lambda p, c: 0.0)
+        return alpha * _m.log(beta) - _m.lgamma(alpha) + _m.lgamma(alpha + n - 1) - (alpha + n - 1) * math.log(beta + stat)
     if model == 'pexp':
         th = [vals[f'theta{k}'] for k in range(G + 1)]
         gw = [vals[f'growth{k}'] for k in range(G + 1)]
@@ -469,6 +1207,150 @@ def tasks_for(tier):
     for model, n, G, budget in plan:
         for perm in itertools.permutations(range(n)):
             ts.append((model, n, G, perm, budget))
+    # serially sampled trees in which a tip is older than the first coalescence, piecewise-linear model at n = 3 (the full closed
+    # domain does not finish at n = 3): one task per sampling order, generic stratum of that event order, grid point anywhere
+    for perm in itertools.permutations(range(3)):
+        ts.append(('plinear', 3, 1, perm, 100, 'interleaved'))
+    return wrapper_tasks(tier) + ts
+
+
+def _pairs(kinds):
+    return [((a,), (b,)) for a in kinds for b in kinds]
+
+
+def _triples(kinds):
+    """three single updates in a row: consecutive ones different, plus the same one three times"""
+    return [((a,), (b,), (c,)) for a in kinds for b in kinds for c in kinds if (a != b and b != c) or a == b == c]
+
+
+def wrapper_tasks(tier):
+    """histories x JSON forms x batch shapes for the `...Model` wrappers.  A history of two updates with an evaluation after each
+    contains the one-update history as a prefix, so quick = all ordered pairs of single-parameter updates + joint updates.
+    Sampling order (0,1,2) on ((t0,t1),t2) makes t2 the last tip: the region in which t2 is older than the first coalescence
+    (serially sampled, interleaved) is one of the regions the explorer enumerates; order (2,1,0) has one event order only.
+    thorough = the quick plan + t2 in the middle / first of the sampling order, three-update histories, more forms x orders,
+    four taxa, the piecewise-linear histories the quick tier leaves out."""
+    quick = tier == 'quick'
+    ts = []
+
+    def add(model, hist=(), **kw):
+        t = dict(model=model, n=3, G=1 if WRAPPERS[model].get('grid') else 0, hist=tuple(hist))
+        t.update(kw)
+        if t.get('tree') == 'ratio' and t['n'] == 3 and tuple(t['perm'])[-1] == 2 and 'side' not in t:
+            for side in ('below', 'above'):
+                ts.append(dict(t, side=side))
+        else:
+            ts.append(t)
+
+    inter, plain = (0, 1, 2), (2, 1, 0)
+    more = [] if quick else [(0, 2, 1), (2, 0, 1), plain]  # t2 in the middle / first; the mirrored single-order case
+    seqs3 = [(1, 1, 0, 1, 0), (1, 1, 1, 0, 0)]  # the two valid event orders of three taxa; the first one is interleaved
+    for model in ('constant', 'exponential', 'skyride', 'skygrid'):
+        sp = WRAPPERS[model]
+        grid = bool(sp.get('grid'))
+        pop = ['theta'] + (['growth'] if sp.get('growth') else [])
+        last = pop[-1]
+        gl = {'grid': 'list'} if grid else {}
+        gr = {'grid': 'ref'} if grid else {}
+        # with a grid every generation of heights / grid points multiplies the grid positions: the grid model's histories
+        # run on two taxa (tree forms) and on the interleaved three-taxon event order (data form)
+        small = dict(n=2, perm=(0, 1)) if grid else dict(perm=inter)
+        # ---- (1) histories on a TimeTreeModel: population parameters, grid and internal heights
+        kinds = pop + (['grid'] if grid else []) + ['heights']
+        hists = _pairs(kinds) + [(tuple(kinds),), (('samp',), ('heights',)), (('heights', 'samp'), ('theta',))]
+        if len(pop) > 1:
+            hists += [(tuple(pop),), (tuple(pop), ('heights',)), (('theta', 'heights'),), (('growth', 'heights'),)]
+        if grid:
+            hists += [(('theta', 'grid'),), (('grid', 'heights'),)]
+        for h in hists:
+            add(model, h, **small)
+            for perm in more:
+                if not grid:
+                    add(model, h, perm=perm)
+                elif perm != plain:
+                    add(model, h, n=2, perm=(1, 0))
+                    break
+        if not quick:
+            for h in _triples(kinds):
+                add(model, h, **small)
+        add(model, (tuple(kinds), ('theta',)), **(small if grid else dict(perm=plain)))
+        if grid:
+            for perm in [inter] + more:
+                add(model, (('theta',),), perm=perm)
+            for h in [(('grid',), ('theta',))] + ([] if quick else [(('theta',), ('grid',)), (('theta', 'grid'),)]):
+                for ev in seqs3[:1] if quick else seqs3:
+                    add(model, h, tree='times', events=ev)
+        # ---- (2) every documented JSON form, each with a two-update history over what is updatable in that form
+        add(model, (('theta',), ('heights',)), theta='ref', tree='ref', **gr, **small)
+        add(model, (('heights',), ('theta',)), theta='texp', **small)
+        add(model, (('theta',), ('ratios',)), perm=inter, tree='ratio')
+        if not (grid and quick):
+            add(model, (('ratios', 'root'),), perm=plain, tree='ratio', theta='texp')
+        add(model, ((last,), ('theta',)), tree='times', events=seqs3[0], **gl)
+        add(model, ((last,), ('theta',)), tree='intervals', events=seqs3[1], theta='texp', **gl)
+        if grid:
+            add(model, (('theta',), ('grid',)), n=2, perm=(0, 1), grid='list')
+            add(model, (('grid',), ('heights',)), n=2, perm=(0, 1), grid='cutoff')
+            add(model, (('samp',), ('theta',)), n=2, tree='times', events=(1, 1, 0), grid='cutoff', cutoff=1.2)
+        else:
+            add(model, ((last,), ('theta',)), tree='times', events=seqs3[1], theta='texp')
+            add(model, ((last,), ('theta',)), tree='intervals', events=seqs3[0])
+            add(model, (('samp',), ('theta',)), tree='times', events=seqs3[0])
+        if not quick:
+            add(model, (('heights',), (last,)), theta='ref', tree='ref', **gr, **small)
+            add(model, (('root',), (last,)), perm=plain, tree='ratio')
+            for perm in more[:2]:
+                add(model, (('theta',), ('ratios',)), perm=perm, tree='ratio')
+                if not grid:
+                    add(model, (('heights',), ('theta',), ('heights',)), perm=perm, theta='texp', tree='ref')
+            if not grid:
+                add(model, (('theta',), ('ratios',), ('root',)), perm=inter, tree='ratio')
+            for ev in seqs3:
+                add(model, ((last,), ('theta',), (last,)), tree='times', events=ev, theta='texp', **gl)
+                add(model, ((last,), ('theta',), (last,)), tree='intervals', events=ev, **gl)
+        # ---- (4) batched model calls: [2, .] population parameters and / or [2, .] internal heights, per-sample oracle
+        for batch in ('theta', 'heights', 'both'):
+            h = (('theta',),) if batch != 'heights' else (('heights',),)
+            add(model, h, batch=batch, **small)
+            for perm in more:
+                add(model, (('theta',),) if grid else h, perm=perm, batch=batch)
+        if not quick or model in ('constant', 'exponential'):
+            add(model, ((last,),), tree='ratio', perm=inter, batch='both')
+        add(model, ((last,),), tree='times', events=seqs3[0], batch='theta', **gl)
+        if not quick and not grid:
+            add(model, (('theta',), ('heights',)), n=4, perm=(0, 1, 2, 3))
+            add(model, (('theta',), ('heights',)), n=4, perm=(3, 1, 0, 2))
+    # ---- piecewise-linear grid model: lemma chaining makes a region ~2 s and the closed domain of a history (ties and flat
+    # segments of every generation) does not close within budget: the histories run on two taxa on the generic stratum; the
+    # closed domain is covered for the distribution itself (thorough tier, `plinear` n = 2, G = 2) and here without update
+    kw = dict(n=2, perm=(0, 1), stratum='generic')
+    hh = [(('grid',),)]
+    if not quick:
+        hh += [(('grid',), ('theta',)), (('theta',), ('grid',)), (('heights',), ('grid',)), (('grid',), ('heights',)),
+               (('theta', 'grid', 'heights'),), (('samp',), ('theta',))]
+    for h in hh:
+        add('plinear', h, **kw)
+    add('plinear', (('theta',),), theta='ref', tree='ref', grid='ref', **kw)
+    add('plinear', (('heights',),), grid='cutoff', cutoff=1.2, **kw)
+    add('plinear', (('theta',),), tree='times', events=(1, 1, 0), grid='list', **dict(kw, perm=None))
+    for batch in ('theta', 'both') if quick else ('theta', 'heights', 'both'):
+        add('plinear', (), batch=batch, **kw)
+    if not quick:
+        add('plinear', (('theta',),), tree='times', events=seqs3[0], stratum='generic')
+        add('plinear', (), n=2, perm=(0, 1))
+    # ---- theta-integrated constant model (alpha, beta are JSON numbers): internal heights are its only parameter
+    for perm in [inter] + more:
+        add('integrated', (('heights',), ('heights',)), perm=perm)
+        add('integrated', (('heights',), ('samp',)), perm=perm, tree='ref')
+    add('integrated', (('ratios',), ('root',)), tree='ratio', perm=inter)
+    add('integrated', (('ratios', 'root'),), tree='ratio', perm=plain)
+    add('integrated', (('heights',),), perm=inter, batch='heights')
+    # ---- piecewise-exponential grid model: as far as it runs (it raises on every region: known finding)
+    add('pexp', (), n=2, perm=(0, 1))
+    add('pexp', (), n=2, tree='times', events=(1, 1, 0), grid='list')
+    # long tasks first (the pool takes tasks in this order)
+    cost = {'plinear': 0, 'skygrid': 1}
+    ts.sort(key=lambda t: (cost.get(t['model'], 2), -t['n'], -len(t['hist'])))
     return ts
 
 
@@ -476,9 +1358,22 @@ def body(chk):
     chk.explanation = ('bounded symbolic execution of the real coalescent log_prob code; path regions = event '
                        'interleavings, enumerated with blocking clauses until the solver certifies coverage; '
                        'on each region impl == independent Kingman event-list oracle is proved for all real '
-                       'inputs (QF_NRA + uninterpreted log/exp with ground axiom instances)')
-    chk.total.assumptions |= {'torch.distributions argument validation switched off (inputs are constrained by the stated domain instead)',
-                              'log/exp are uninterpreted functions constrained by ground instances of their algebraic laws'}
+                       'inputs (QF_NRA + uninterpreted log/exp with ground axiom instances). '
+                       'Two layers: (a) the Distribution classes called directly on symbolic heights in any order (all event '
+                       'interleavings incl. serially sampled trees with a tip older than a coalescence; piecewise-linear: n = 3 on the '
+                       'interleaved event orders, closed domain at n = 2 in the thorough tier); (b) the ...Model wrappers as OBJECTS: '
+                       'built through every documented JSON form, evaluated, updated through the parameter setters with fresh symbols and '
+                       'evaluated again (histories), unbatched and with a leading sample dimension; every evaluation of model() and '
+                       'model.distribution().log_prob(...) is compared with the oracle at the symbols current at that point. A counterexample '
+                       'is replayed by rebuilding the model from JSON with plain tensors and re-running the same history.')
+    chk.total.assumptions |= {'torch.distributions argument validation switched off (inputs are constrained by the stated domain instead) '
+                              'for the direct Distribution calls; the model wrappers run with the library default (validation of theta > 0 on)',
+                              'log/exp are uninterpreted functions constrained by ground instances of their algebraic laws',
+                              'model wrappers: the tip dates of a TimeTreeModel are made symbolic by assigning tree_model.sampling_times '
+                              'right after construction (before the first evaluation), as in C06 / C07',
+                              'outside: sampling-time changes of a tree model after its first evaluation (no notifying API exists), '
+                              'SoftPiecewiseConstantCoalescentGrid (temperature option), maximum_likelihood / sufficient_statistics / rsample, '
+                              'n >= 4 for grid models in histories, more than one inner grid point in histories, sample shapes other than [2]'}
     chk.total.stubs |= {'log', 'exp (uninterpreted + ground axioms)'}
     pmap(run_task, tasks_for(chk.tier), chk.total)
 
@@ -488,7 +1383,10 @@ if __name__ == '__main__':
         import json
 
         r = json.load(open(sys.argv[sys.argv.index('--replay') + 1]))['replay']
-        ok, detail = replay(r['model'], r['n'], r['G'], r['values'])
+        if 'wrapper' in r:
+            ok, detail = wrap_replay(r['wrapper'], r['values'])
+        else:
+            ok, detail = replay(r['model'], r['n'], r['G'], r['values'])
         print(('REPRODUCED ' if ok else 'NOT REPRODUCED ') + detail)
         sys.exit(1 if ok else 0)
     sys.exit(main_for(PID, body))
